@@ -42,7 +42,7 @@ type SessCase struct {
 }
 
 func genSessOp(t *rapid.T, w *wl.Workload, flavor string, allowOrders bool) SessOp {
-	kind := rapid.SampledFrom([]string{"messages", "messages", "messages", "scan", "info", "metadata", "attachment"}).Draw(t, "op")
+	kind := rapid.SampledFrom([]string{"messages", "messages", "messages", "scan", "info", "metadata", "attachment", "walk"}).Draw(t, "op")
 	op := SessOp{Kind: kind, Partial: -1}
 	switch kind {
 	case "messages", "scan":
@@ -66,7 +66,7 @@ func genSessOp(t *rapid.T, w *wl.Workload, flavor string, allowOrders bool) Sess
 		if rapid.IntRange(0, 3).Draw(t, "partial?") == 0 {
 			op.Partial = rapid.IntRange(0, 5).Draw(t, "partial")
 		}
-	case "metadata", "attachment":
+	case "metadata", "attachment", "walk":
 		op.Idx = rapid.IntRange(0, 7).Draw(t, "idx")
 	}
 	return op
@@ -282,6 +282,59 @@ func checkSession(prop string) func(c SessCase, st *stats.Collector) error {
 					return pk.Failf("metadata-fetch", "metadata fetched at index entry #%d after%s is %s, written %s", j, history, pk.Short(got), pk.Short(metas[j]))
 				}
 				history += fmt.Sprintf(" GetMetadata(#%d)", j)
+			case "walk":
+				// every metadata record and every attachment, in index order (what a "list" command does), while
+				// the kept iterators go on being consumed between the lookups
+				info, err := getInfo(fmt.Sprintf("before a walk over the index entries, call #%d", i))
+				if err != nil {
+					return err
+				}
+				if indexed && op.Idx%4 != 3 {
+					// ... and a read of the messages that starts now and is consumed during the walk
+					order := mcap.ReadOrder(op.Idx % 3)
+					if prop == "C03" {
+						order = mcap.ReadOrder(1 + op.Idx%2)
+					}
+					it, err := rd.Messages(mcap.InOrder(order))
+					if err != nil {
+						return pk.Failf("session-open", "Messages(order=%d) at the start of a walk over the index entries, after%s: %v", order, history, err)
+					}
+					held = append(held, &heldIter{it: it, label: fmt.Sprintf("messages: Messages(order=%d), consumed one message at a time between the lookups of a walk over all index entries, after%s", order, history), endOpen: true, order: order})
+					history += fmt.Sprintf(" messages(order=%d, kept)", order)
+				}
+				for j, idx := range info.MetadataIndexes {
+					md, err := rd.GetMetadata(idx.Offset)
+					if err != nil {
+						return pk.Failf("metadata-fetch", "GetMetadata(entry #%d of a walk over all entries, %d live iterators advanced between the lookups) after%s: %v", j, len(held), history, err)
+					}
+					got := &wl.Metadata{Name: md.Name, Metadata: mc.SortKV(md.Metadata)}
+					if len(info.MetadataIndexes) == len(metas) && !pk.EqMetadata(got, metas[j]) {
+						return pk.Failf("metadata-fetch", "metadata fetched at index entry #%d (walk over all entries, %d live iterators advanced between the lookups) after%s is %s, written %s", j, len(held), history, pk.Short(got), pk.Short(metas[j]))
+					}
+					if err := stepHeld(); err != nil {
+						return err
+					}
+				}
+				for j, idx := range info.AttachmentIndexes {
+					ar, err := rd.GetAttachmentReader(idx.Offset)
+					if err != nil {
+						return pk.Failf("attachment-fetch", "GetAttachmentReader(entry #%d of a walk) after%s: %v", j, history, err)
+					}
+					data, err := io.ReadAll(ar.Data())
+					if err != nil {
+						return pk.Failf("attachment-fetch", "reading attachment entry #%d of a walk after%s: %v", j, history, err)
+					}
+					if len(info.AttachmentIndexes) == len(atts) {
+						want := atts[j]
+						if ar.LogTime != want.LogTime || ar.CreateTime != want.CreateTime || ar.Name != want.Name || ar.MediaType != want.MediaType || !bytes.Equal(data, want.Data) {
+							return pk.Failf("attachment-fetch", "attachment fetched at index entry #%d (walk) after%s differs from the written one", j, history)
+						}
+					}
+					if err := stepHeld(); err != nil {
+						return err
+					}
+				}
+				history += " walk(metadata,attachments)"
 			case "attachment":
 				info, err := getInfo(fmt.Sprintf("before GetAttachmentReader, call #%d", i))
 				if err != nil {
